@@ -45,6 +45,21 @@ func escapeEveryByte(s string) string {
 	return b.String()
 }
 
+func apBoth(g *GSchema) bool {
+	if g == nil {
+		return false
+	}
+	if g.ApHas != nil && g.Ap != nil {
+		return true
+	}
+	for _, p := range g.Props {
+		if apBoth(p) {
+			return true
+		}
+	}
+	return apBoth(g.Items) || apBoth(g.Ap)
+}
+
 // c05Transport returns the oracles that failed for the case
 func c05Transport(c *C05Case, o *C05Obs) (out [][2]string) {
 	if c.In == "query" && len(c.Frag.Query) > 0 {
@@ -53,6 +68,17 @@ func c05Transport(c *C05Case, o *C05Obs) (out [][2]string) {
 		c.viaForm = false
 		if o2.Valid != o.Valid || o2.Err != o.Err || o2.Found != o.Found || o2.ValueText != o.ValueText {
 			out = append(out, [2]string{"query-read-from-parsed-form", fmt.Sprintf("plain request: valid=%d err=%d found=%v value=%s; after ParseForm with a form body: valid=%d err=%d found=%v value=%s",
+				o.Valid, o.Err, o.Found, o.ValueText, o2.Valid, o2.Err, o2.Found, o2.ValueText)})
+		}
+	}
+	// (a schema object holding both forms of additionalProperties cannot be written: it is no document)
+	if !apBoth(c.Schema) {
+		// a definition that was written out (MarshalJSON) and read back is the same definition
+		c.written = true
+		o2 := runC05(c)
+		c.written = false
+		if o2.Valid != o.Valid || o2.Err != o.Err || o2.Found != o.Found || o2.ValueText != o.ValueText {
+			out = append(out, [2]string{"definition-written-and-read-back-decodes-differently", fmt.Sprintf("as built: valid=%d err=%d found=%v value=%s; written and read back: valid=%d err=%d found=%v value=%s",
 				o.Valid, o.Err, o.Found, o.ValueText, o2.Valid, o2.Err, o2.Found, o2.ValueText)})
 		}
 	}
